@@ -171,6 +171,11 @@ class OutgoingRIB(Cache):
     def replace_reload(self, previous: list[Route], new: list[Route]) -> None:
         if not self.enabled:
             return
+        # routes a watchdog holds back (`watchdog <name> withdraw`) stay as they are until it is
+        # announced or withdrawn, as when the same configuration is loaded at start
+        held = {index for states in self._watchdog.values() for index in states.get('-', {})}
+        previous = [route for route in previous if route.index() not in held]
+        new = [route for route in new if route.index() not in held]
         # this requires that all routes are announcements
         indexed: dict[bytes, Route] = {}
 
